@@ -17,6 +17,21 @@ pub(crate) struct SyscommandCounter(usize);
 
 //-------------------------------------------------------------------------------------------------------------------
 
+/// Source of unique tickets that tie prepared reaction metadata to the command that prepared it.
+#[derive(Resource, Default, Debug)]
+pub(crate) struct ReactionTicketCounter(u64);
+
+impl ReactionTicketCounter
+{
+    pub(crate) fn next(&mut self) -> u64
+    {
+        self.0 = self.0.wrapping_add(1);
+        self.0
+    }
+}
+
+//-------------------------------------------------------------------------------------------------------------------
+
 /// Prepares the react framework so that reactors may be registered with [`ReactCommands`].
 /// - Un-handled removals and despawns will be automatically processed in `Last`.
 pub struct ReactPlugin;
@@ -31,6 +46,7 @@ impl Plugin for ReactPlugin
         }
         app.init_resource::<CobwebCommandQueue<BufferedSyscommand>>()
             .init_resource::<SyscommandCounter>()
+            .init_resource::<ReactionTicketCounter>()
             .init_resource::<SystemEventAccessTracker>()
             .init_resource::<EntityReactionAccessTracker>()
             .init_resource::<EventAccessTracker>()
